@@ -306,7 +306,10 @@ def _memo_only(a, b, proto):
 
 
 def _unshare(x):
-    """deep copy in which no two str/bytes leaves are the same object"""
+    """deep copy in which no two str/bytes/frozenset leaves are the same
+    object"""
+    if isinstance(x, frozenset):
+        return frozenset(list(x))
     if isinstance(x, tuple):
         return tuple(_unshare(y) for y in x)
     if isinstance(x, list):
